@@ -160,7 +160,8 @@ NewVal == CHOOSE v \in 1..5 : v \notin UsedVals /\ \A u \in 1..5 : u < v => u \i
 IsLowFree(w) == vt[w].t = "none" /\ \A u \in Wr : u < w => vt[u].t # "none"
 
 NoOp == [k |-> "", w |-> 0, s |-> 0, kind |-> "", via |-> "", tag |-> 0, fault |-> "none", cpo |-> "", val |-> 0]
-Commit(m, op, a) ==
+\* (\E x \in {e} forces TLC to evaluate e once; operator arguments and LET definitions are re-evaluated on every use)
+Commit(mx, op, ax) == \E m \in {mx}, a \in {ax} :
   /\ vt' = m.vt /\ st' = m.st /\ heap' = m.heap /\ ext' = m.ext /\ bad' = m.bad /\ abs' = a
   /\ n' = n + 1 /\ fam' = fam
   /\ last' = [op |-> op, exc |-> m.exc, res |-> m.res, c |-> m.c]
@@ -172,11 +173,9 @@ Construct(w, k, via, tag, fault) ==
      ELSE tag \in {0, 1} /\ (InPlace(k) /\ tag = 1 => k = "SN")  \* 0 = DefaultAllocator
   /\ fault \in {"none"} \cup (IF via = "inplace" THEN {"ctor"} ELSE {}) \cup (IF via = "value" /\ k = "ST" THEN {"move"} ELSE {})
   /\ fault = "ctor" => tag \in {0, 9} /\ k \in {"SN", "LG"}
-  /\ LET v == NewVal
-         m1 == [M0 EXCEPT !.vt[w] = VtFor(k)]
-         m2 == MakeIn(m1, w, k, v, via, tag, fault)
-         m3 == IF m2.exc # 0 THEN [m2 EXCEPT !.vt[w] = NoneVt, !.st[w] = Empty] ELSE m2
-     IN Commit(m3, [NoOp EXCEPT !.k = "construct", !.w = w, !.kind = k, !.via = via, !.tag = tag, !.fault = fault, !.val = v],
+  /\ \E v \in {NewVal}, m0 \in {M0} : \E m2 \in {MakeIn([m0 EXCEPT !.vt[w] = VtFor(k)], w, k, v, via, tag, fault)} :
+     \E m3 \in {IF m2.exc # 0 THEN [m2 EXCEPT !.vt[w] = NoneVt, !.st[w] = Empty] ELSE m2} :
+        Commit(m3, [NoOp EXCEPT !.k = "construct", !.w = w, !.kind = k, !.via = via, !.tag = tag, !.fault = fault, !.val = v],
                IF m2.exc # 0 THEN abs ELSE [abs EXCEPT ![w] = ValAbs(P(k, v))])
 
 \* API-level reading of "move the content of s": value keeps, source becomes moved-from
@@ -185,32 +184,30 @@ AbsMoved(a, w, s) == [a EXCEPT ![w] = a[s], ![s] = IF a[s].t = "val" THEN MfAbs 
 MoveC(w, s, fault) ==
   /\ fam \in Own \cup {"sched"} /\ w # s /\ IsLowFree(w) /\ vt[s].t # "none"
   /\ fault \in {"none"} \cup (IF vt[s] = [t |-> "inl", k |-> "ST"] /\ st[s].t = "obj" THEN {"move"} ELSE {})
-  /\ LET m1 == [M0 EXCEPT !.vt[w] = vt[s]]
-         m2 == VMove(m1, w, s, fault)
-         m3 == IF m2.exc # 0 THEN [m2 EXCEPT !.vt[w] = NoneVt, !.st[w] = Empty] ELSE m2
-     IN Commit(m3, [NoOp EXCEPT !.k = "movec", !.w = w, !.s = s, !.fault = fault],
+  /\ \E m1 \in {[M0 EXCEPT !.vt[w] = vt[s]]} : \E m2 \in {VMove(m1, w, s, fault)} :
+     \E m3 \in {IF m2.exc # 0 THEN [m2 EXCEPT !.vt[w] = NoneVt, !.st[w] = Empty] ELSE m2} :
+        Commit(m3, [NoOp EXCEPT !.k = "movec", !.w = w, !.s = s, !.fault = fault],
                IF m2.exc # 0 THEN abs ELSE AbsMoved(abs, w, s))
 
 MoveA(w, s, fault) ==
   /\ fam \in Own \cup {"sched"} /\ vt[w].t # "none" /\ vt[s].t # "none"
   /\ fault \in {"none"} \cup (IF w # s /\ vt[s] = [t |-> "inl", k |-> "ST"] /\ st[s].t = "obj" THEN {"move"} ELSE {})
-  /\ LET m1 == IF Bug = "noDestroyOnAssign" THEN [M0 EXCEPT !.st[w] = Empty] ELSE VDestroy(M0, w)
-         m2 == IF fam = "objF" /\ Bug # "noInvalid" THEN [m1 EXCEPT !.vt[w] = InvVt] ELSE m1
-         m3 == VMove(m2, w, s, fault)
-         m4 == IF m3.exc = 0 THEN [m3 EXCEPT !.vt[w] = m3.vt[s]] ELSE m3
-         op == [NoOp EXCEPT !.k = "movea", !.w = w, !.s = s, !.fault = fault]
-     IN IF w = s THEN Commit(M0, op, abs)
+  /\ \E m0 \in {M0} : \E m1 \in {IF Bug = "noDestroyOnAssign" THEN [m0 EXCEPT !.st[w] = Empty] ELSE VDestroy(m0, w)} :
+     \E m2 \in {IF fam = "objF" /\ Bug # "noInvalid" THEN [m1 EXCEPT !.vt[w] = InvVt] ELSE m1} :
+     \E m3 \in {VMove(m2, w, s, fault)} :
+     \E m4 \in {IF m3.exc = 0 THEN [m3 EXCEPT !.vt[w] = m3.vt[s]] ELSE m3} :
+     \E op \in {[NoOp EXCEPT !.k = "movea", !.w = w, !.s = s, !.fault = fault]} :
+        IF w = s THEN Commit(M0, op, abs)
         ELSE Commit(m4, op, IF m3.exc # 0 THEN [abs EXCEPT ![w] = InvAbs] ELSE AbsMoved(abs, w, s))
 
 AssignValue(w, k, fault) ==
   /\ fam \in {"objT", "objF"} /\ vt[w].t # "none" /\ k \in PKinds
   /\ fault \in {"none"} \cup (IF k = "ST" THEN {"move"} ELSE {})
-  /\ LET v == NewVal
-         m1 == VDestroy(M0, w)
-         m2 == IF (~InPlace(k) \/ ~Nothrow(k)) /\ Bug # "noInvalid" THEN [m1 EXCEPT !.vt[w] = InvVt] ELSE m1
-         m3 == MakeIn(m2, w, k, v, "value", 0, fault)
-         m4 == IF m3.exc = 0 THEN [m3 EXCEPT !.vt[w] = VtFor(k)] ELSE m3
-     IN Commit(m4, [NoOp EXCEPT !.k = "assign", !.w = w, !.kind = k, !.via = "value", !.fault = fault, !.val = v],
+  /\ \E v \in {NewVal}, m0 \in {M0} : \E m1 \in {VDestroy(m0, w)} :
+     \E m2 \in {IF (~InPlace(k) \/ ~Nothrow(k)) /\ Bug # "noInvalid" THEN [m1 EXCEPT !.vt[w] = InvVt] ELSE m1} :
+     \E m3 \in {MakeIn(m2, w, k, v, "value", 0, fault)} :
+     \E m4 \in {IF m3.exc = 0 THEN [m3 EXCEPT !.vt[w] = VtFor(k)] ELSE m3} :
+        Commit(m4, [NoOp EXCEPT !.k = "assign", !.w = w, !.kind = k, !.via = "value", !.fault = fault, !.val = v],
                [abs EXCEPT ![w] = IF m3.exc # 0 THEN InvAbs ELSE ValAbs(P(k, v))])
 
 Swap(w, s) ==
@@ -221,10 +218,9 @@ Swap(w, s) ==
 Invoke(w, cpo) ==
   /\ fam \in Own \cup {"ref"} /\ Invocable(M0, w)
   /\ cpo \in {"get", "add", "snd", "ovl", "thr"}
-  /\ LET o == Target(M0, w)
-         o2 == IF cpo = "add" THEN [o EXCEPT !.a = 1] ELSE o
-         m1 == SetTarget(M0, w, o2)
-         m2 == CASE cpo = "get" -> [m1 EXCEPT !.res = Code(o)]
+  /\ \E m0 \in {M0} : \E o \in {Target(m0, w)} : \E o2 \in {IF cpo = "add" THEN [o EXCEPT !.a = 1] ELSE o} :
+     \E m1 \in {SetTarget(m0, w, o2)} :
+     LET m2 == CASE cpo = "get" -> [m1 EXCEPT !.res = Code(o)]
                  [] cpo = "add" -> [m1 EXCEPT !.res = Code(o2)]
                  [] cpo = "snd" -> [m1 EXCEPT !.res = Code(o) + 7000]
                  [] cpo = "ovl" -> [m1 EXCEPT !.res = Code(o) * 3]
@@ -234,8 +230,8 @@ Invoke(w, cpo) ==
 
 Destroy(w) ==
   /\ vt[w].t # "none"
-  /\ LET m1 == VDestroy(M0, w)
-     IN Commit([m1 EXCEPT !.vt[w] = NoneVt, !.st[w] = Empty], [NoOp EXCEPT !.k = "destroy", !.w = w], [abs EXCEPT ![w] = NoAbs])
+  /\ \E m1 \in {VDestroy(M0, w)} :
+        Commit([m1 EXCEPT !.vt[w] = NoneVt, !.st[w] = Empty], [NoOp EXCEPT !.k = "destroy", !.w = w], [abs EXCEPT ![w] = NoAbs])
 
 \* ---------------------------------------------------------------- any_ref / any_scheduler_ref
 Bind(w, e) ==
@@ -263,12 +259,11 @@ SConstruct(w, k, key) ==
 \* copy construction / assignment: _copy_as makes a new heap-allocated scheduler, then the old content (if any) dies
 SCopy(w, s) ==
   /\ fam = "sched" /\ Invocable(M0, s) /\ (vt[w].t = "none" => IsLowFree(w))
-  /\ LET o == Target(M0, s)
-         b == NewB(M0)
-         m1 == [M0 EXCEPT !.heap[b] = [used |-> TRUE, tag |-> 9, o |-> o], !.c = [Z EXCEPT !.copy = 1, !.move = 1, !.dtor = 1, !.alloc = 1]]
-         m2 == IF vt[w].t = "none" THEN m1 ELSE VDestroy(m1, w)
-         m3 == PutPtr([m2 EXCEPT !.vt[w] = vt[s]], w, b)
-     IN Commit(m3, [NoOp EXCEPT !.k = IF vt[w].t = "none" THEN "copyc" ELSE "copya", !.w = w, !.s = s], [abs EXCEPT ![w] = abs[s]])
+  /\ \E m0 \in {M0} : \E o \in {Target(m0, s)}, b \in {NewB(m0)} :
+     \E m1 \in {[m0 EXCEPT !.heap[b] = [used |-> TRUE, tag |-> 9, o |-> o], !.c = [Z EXCEPT !.copy = 1, !.move = 1, !.dtor = 1, !.alloc = 1]]} :
+     \E m2 \in {IF vt[w].t = "none" THEN m1 ELSE VDestroy(m1, w)} :
+     \E m3 \in {PutPtr([m2 EXCEPT !.vt[w] = vt[s]], w, b)} :
+        Commit(m3, [NoOp EXCEPT !.k = IF vt[w].t = "none" THEN "copyc" ELSE "copya", !.w = w, !.s = s], [abs EXCEPT ![w] = abs[s]])
 SEq(w, s) ==
   /\ fam = "sched" /\ Invocable(M0, w) /\ Invocable(M0, s)
   /\ LET a == Target(M0, w)
